@@ -10,7 +10,7 @@ class Spec:
         self.roots = []; self.opaque = []; self.retsites = []
         self.contracts = {}; self.loops = {}; self.loop_headers = {}
         self.pre = []; self.code = []; self.jobs = []; self.name = None; self.files = []
-        self.drop = []; self.replays = {}; self.top_contracts = []; self.opaque_records = []; self.early = []; self.relies = []
+        self.drop = []; self.replays = {}; self.top_contracts = []; self.opaque_records = []; self.early = []; self.relies = []; self.pools = []; self.cuts = []
 
 def parse_spec(path, spec=None, top=True, seen=None):
     spec = spec or Spec(); seen = seen if seen is not None else set()
@@ -52,6 +52,10 @@ def parse_spec(path, spec=None, top=True, seen=None):
         elif kw == 'early': cur = ('early',)
         elif kw == 'rely':
             if top: spec.relies += rest.split()
+        elif kw == 'pool':
+            if top: spec.pools += rest.split()
+        elif kw == 'cut':
+            if top: spec.cuts += rest.split()
         elif kw == 'code': cur = ('code',)
         elif kw == 'replay': cur = ('replay', rest.split()[0])
         elif kw == 'end': cur = None
@@ -70,6 +74,13 @@ def parse_spec(path, spec=None, top=True, seen=None):
         elif kw == 'unit': pass
         else: raise Abort(f'{path}: unknown spec keyword {kw}')
     flush()
+    if top:
+        for c in spec.cuts:
+            spec.contracts[c] = '/* cut: unreachable under this unit\'s preconditions (the call-site obligation proves it) */\n__CPROVER_requires(0)\n__CPROVER_assigns()'
+            if c not in spec.opaque: spec.opaque.append(c)
+        for j in spec.jobs:
+            extra = [c for c in spec.cuts if c not in j.get('replace', '').split(',') and c != j.get('enforce')]
+            if extra: j['replace'] = ','.join([x for x in j.get('replace', '').split(',') if x] + extra)
     return spec
 
 def driver_tu(records):
@@ -328,6 +339,12 @@ class Unit:
         for r in sorted(self.em.need_new):
             kp = self.kind_path(r)
             sz = self.em.sizes.get(r, {}).get('size')
+            if r in self.spec.pools:
+                # units whose loop contracts forbid allocation inside the loop: `new R()` hands out the pre-allocated object y_pool_R
+                # (bound fresh by the unit's requires); the ledger still records the allocation
+                out.append(f"{r}* y_pool_{r};\nstatic inline {r}* Y_NEW_{r}(void)\n{{\n  {r}* p = y_pool_{r};\n  if (y_nodes.new_cnt < 4) y_nodes.new_ptr[y_nodes.new_cnt] = p;\n  Y_SAT_INC(y_nodes.new_cnt);\n  *p = {self.em.default_init(r)};\n"
+                           + (f"  p->{kp} = Y_KIND_{r};\n" if kp else '') + "  return p;\n}")
+                continue
             out.append(f"static inline {r}* Y_NEW_{r}(void)\n{{\n  {r}* p = ({r}*)y_alloc_node(sizeof({r}));\n  *p = {self.em.default_init(r)};\n"
                        + (f"  p->{kp} = Y_KIND_{r};\n" if kp else '') + "  return p;\n}")
         return '\n'.join(out)
